@@ -391,7 +391,7 @@ std::string body_C11(Ctx& c, CaseIn& in) {
   Tape& tp = *in.rest;
   tracker().reset();
   std::string verdict;
-  bool prior_nonempty = false, prior_failed = false;
+  bool prior_nonempty = false, prior_failed = false, prior_badsize = false;
   std::string hist;
   {
     GenCfg small = c.cfg; small.budget = 80;
@@ -400,8 +400,14 @@ std::string body_C11(Ctx& c, CaseIn& in) {
     size_t steps = (size_t)tp.below(5);
     Value seed_val = in.v;
     for (size_t i = 0; i < steps; i++) {
-      uint64_t kind = tp.below(3);
+      uint64_t kind = tp.below(4);
       Value pv = gen_value(*t.schema, tp, small);
+      if (kind == 3) {
+        // a prior object assigned by hand whose logical-buffer size member is out of range (the decoder
+        // never consults the destination's size member, so the result must still be the fresh one)
+        if (break_lbuf(*t.schema, pv, tp)) { obj->assign(pv); hist += "assign(size member out of range); "; prior_failed = false; prior_badsize = true; }
+        else kind = 0;
+      }
       if (kind == 0) { obj->assign(pv); hist += "assign; "; prior_failed = false; }
       else if (kind == 1) {
         auto tmp = t.make(); tmp->assign(pv); Value pa = tmp->get();
@@ -445,8 +451,9 @@ std::string body_C11(Ctx& c, CaseIn& in) {
   if (ts.constructed) c.rep.label("tracked-elements", ts.constructed);
   ts.reset();
   if (!verdict.empty()) return verdict;
-  if (prior_nonempty || prior_failed) c.rep.nontriv(hash_str(t.name + hist + to_text(*t.schema, in.v)));
+  if (prior_nonempty || prior_failed || prior_badsize) c.rep.nontriv(hash_str(t.name + hist + to_text(*t.schema, in.v)));
   if (prior_failed) c.rep.label("prior-state-from-failed-read");
+  if (prior_badsize) c.rep.label("prior-state-with-out-of-range-size-member");
   if (prior_nonempty) c.rep.label("prior-state-differs");
   return "";
 }
